@@ -88,7 +88,14 @@ def run_unit(repo, unit, default_cfg_factory, timeout_ms=10000, second=False):
     res = {"unit": unit.name, "func": unit.func, "props": unit.props, "obligations": [], "error": None,
            "paths": 0, "solver_s": 0.0, "wall_s": 0.0, "vacuity": None}
     try:
-        func = repo.func(unit.func)
+        try:
+            func = repo.func(unit.func)
+        except KeyError:
+            # the function this contract is about is gone (renamed, removed): every clause about it is violated in the only way left
+            res["obligations"].append({"name": "the function under contract exists: %s" % unit.func, "kind": "FR", "props": unit.props, "verdict": "refuted",
+                                       "cases": 1, "solver_s": 0.0, "witness": {"decisions": [], "model": {}, "info": {"missing": unit.func}}, "second": {}})
+            res["wall_s"] = round(time.time() - t0, 3)
+            return res
         res["func"] = func.qualname
         res["file"], res["line_from"], res["line_to"] = repo.span(func)
         res["file_sha256"] = func.module.sha256
@@ -101,6 +108,7 @@ def run_unit(repo, unit, default_cfg_factory, timeout_ms=10000, second=False):
             res["error"] = "vacuous precondition (%s)" % r
             return res
         ends = []
+        extra_states = []
         engine.iteration_sink = lambda s: ends.append(PathEnd(s, None, "iteration"))
         eid = st.new_env(None)
         fr0 = Frame(None, func.module, eid, None, -1)
@@ -138,6 +146,8 @@ def run_unit(repo, unit, default_cfg_factory, timeout_ms=10000, second=False):
                 for clause in unit.post(engine, pe.st, ctx, pe.out):
                     (nm, kind, f, props) = clause[:4]
                     cst = clause[4] if len(clause) > 4 else pe.st      # a clause about a simulated continuation carries its own state
+                    if len(clause) > 4:
+                        extra_states.append((nm, cst))
                     if f is True:
                         f = z3.BoolVal(True)
                     elif f is False:
@@ -245,6 +255,48 @@ def run_unit(repo, unit, default_cfg_factory, timeout_ms=10000, second=False):
                                        "verdict": verdict, "cases": len(o["cases"]), "solver_s": round(tsum, 4),
                                        "witness": witness, "second": sec})
             res["solver_s"] += tsum
+        # vacuity guard per path: a path whose condition is contradictory proves everything.  Paths are pruned with the
+        # quantifier-free part only, so a contradiction that needs a quantified hypothesis (a loop invariant assumed at the loop
+        # head against a heap that was not havocked, say) would go unnoticed.  Only meaningful when nothing was refuted (a refuted
+        # obligation is assumed afterwards, which legitimately empties the rest of its path).
+        if all(o["verdict"] == "proved" for o in res["obligations"]):
+            # A single contradictory path is normal (a branch the precondition excludes, not pruned because pruning is
+            # quantifier-free); what must not happen is that a whole CLASS of paths - every exit, every iteration of one loop,
+            # every simulated continuation of one clause - is contradictory: then nothing was proved about it.
+            t_v = time.time()
+            groups = {}
+
+            def group_of(stx, kind):
+                heads = [e for e in stx.trace if e.kind == "loop-head"]
+                if kind == "iteration" and heads:
+                    return "iterations of the loop at %s" % (heads[-1].site,)
+                return kind
+            for pe in ends:
+                groups.setdefault(group_of(pe.st, pe.kind), []).append(pe.st)
+            for nm_, stx in extra_states:
+                groups.setdefault("continuations simulated for `%s`" % nm_[:80], []).append(stx)
+            vac = []
+            n_checked = 0
+            for gname, sts in groups.items():
+                alive = False
+                for stx in sts:
+                    if time.time() - t_v > 120:
+                        alive = True
+                        break
+                    sv = z3.Solver()
+                    sv.set("timeout", 4000)
+                    for f in stx.pc:
+                        sv.add(f)
+                    n_checked += 1
+                    if sv.check() != z3.unsat:
+                        alive = True
+                        break
+                if not alive:
+                    vac.append(gname)
+            res["vacuity_paths_checked"] = n_checked
+            if vac:
+                res["error"] = "vacuous: every path of a class has a contradictory path condition (its obligations hold trivially): %s" % vac[:3]
+            res["solver_s"] += time.time() - t_v
         res["solver_s"] = round(res["solver_s"] + engine.solver_time, 3)
         res["solver_checks"] = engine.solver_checks
         res["executed"] = sorted(engine.executed)
